@@ -73,18 +73,40 @@ def arena(name, entry, functions, **kw):
     return d
 
 
-JOBS += [
-    arena('alloc_aligned', 'h_alloc_aligned', AA),
-    arena('alloc_aligned_nofail', 'h_alloc_aligned', AA, cbmc_flags=[], defines=['CQV_NOFAIL=1']),
-    arena('alloc', 'h_alloc', AA + ['carquet_arena_alloc']),
-    arena('calloc', 'h_calloc', AA + ['carquet_arena_calloc', 'carquet_arena_alloc']),
-    arena('calloc_overflow', 'h_calloc_overflow', ['carquet_arena_calloc', 'carquet_arena_destroy']),
-    arena('memdup', 'h_memdup', AA + ['carquet_arena_memdup', 'carquet_arena_alloc']),
-    arena('strndup', 'h_strndup', AA + ['carquet_arena_strndup'], loop_contracts=True, min_loop_obligations=1),
-    arena('strdup', 'h_strdup', AA + ['carquet_arena_strdup', 'carquet_arena_strndup'], loop_contracts=True, min_loop_obligations=1,
-          trusted=TRUST_ARENA + ['harness/C19/arena.c: strlen model (requires a NUL inside the object, returns the index of some NUL not after the promised one)']),
-    arena('init', 'h_init_size', ['carquet_arena_init', 'carquet_arena_init_size', 'arena_new_block', 'align_up', 'carquet_arena_destroy']),
-    arena('destroy', 'h_destroy', ['carquet_arena_destroy']),
-    arena('reset', 'h_reset', ['carquet_arena_reset', 'carquet_arena_destroy']),
-    arena('save_restore', 'h_save_restore', AA + ['carquet_arena_save', 'carquet_arena_restore']),
-]
+def split(name, entry, functions, **kw):
+    """one job per list length (case split keeps the block pointers concrete: 15 s .. 100 s instead of > 400 s)"""
+    out = []
+    for n in (1, 2, 3):
+        k = dict(kw)
+        k['defines'] = list(kw.get('defines', [])) + ['CQV_NBLK=%d' % n]
+        k['bound'] = 'arena block list of length exactly %d on entry (all block sizes, fill levels <= 2^40, current block, alignment symbolic)' % n
+        if n == 3:
+            k.setdefault('tier', 'thorough')
+        out.append(arena('%s_n%d' % (name, n), entry, functions, **k))
+    return out
+
+
+TRUST_AA = TRUST_ARENA + ['contracts/arena.ovl: contract of carquet_arena_alloc_aligned (NULL or fresh region of exactly size bytes) used by '
+                          'replace; abstraction of what c19_arena_alloc_aligned_n1..n3 prove on the real body, not enforced mechanically']
+CALLER = dict(replace=['carquet_arena_alloc_aligned'], level='proof', bound=None, trusted=TRUST_AA, unwind=None)
+
+JOBS += (
+    split('alloc_aligned', 'h_alloc_aligned', AA)
+    + split('alloc_aligned_nofail', 'h_alloc_aligned', AA, cbmc_flags=[], defines=['CQV_NOFAIL=1'])
+    + split('alloc', 'h_alloc', AA + ['carquet_arena_alloc'])
+    + [
+        arena('calloc', 'h_calloc', ['carquet_arena_calloc', 'carquet_arena_alloc'], backend=['z3', 'sat'], timeout=240, **CALLER),
+        arena('calloc_overflow', 'h_calloc_overflow', ['carquet_arena_calloc'], backend=['z3', 'sat'], timeout=240, **CALLER),
+        arena('memdup', 'h_memdup', ['carquet_arena_memdup', 'carquet_arena_alloc'], **CALLER),
+        arena('strndup', 'h_strndup', ['carquet_arena_strndup'], loop_contracts=True, min_loop_obligations=1, **CALLER),
+        arena('strdup', 'h_strdup', ['carquet_arena_strdup', 'carquet_arena_strndup'], loop_contracts=True, min_loop_obligations=1,
+              **dict(CALLER, trusted=TRUST_AA + ['harness/C19/arena.c: strlen model (requires a NUL inside the object, returns the index of some NUL not after the promised one)'])),
+        arena('init', 'h_init_size', ['carquet_arena_init', 'carquet_arena_init_size', 'arena_new_block', 'align_up', 'carquet_arena_destroy'],
+              level='proof', bound=None),
+        arena('destroy', 'h_destroy', ['carquet_arena_destroy'],
+              bound='arena block list of length 1..4 (all block sizes, fill levels, current block symbolic)'),
+        arena('reset', 'h_reset', ['carquet_arena_reset', 'carquet_arena_destroy']),
+        arena('save_restore', 'h_save_restore', ['carquet_arena_save', 'carquet_arena_restore', 'carquet_arena_destroy'],
+              bound='arena block list of length 1..3 at the save, at most one block appended before the restore'),
+    ]
+)
